@@ -29,8 +29,9 @@ def make_membrane(rng, mix, n_exp=None, stated=True):
                 temps.append(t)
         for j, t in enumerate(temps):
             p = p0 * math.exp(-ea / R * (1 / t - 1 / t0)) * (1.0 if n == 1 else rng.uniform(0.9, 1.1))
+            units = rng.choice([KG, KG, "SI", "GPU"])
             exps.append(pv.IdealExperiment(name="e", temperature=t, component=comp,
-                                           permeance=pv.Permeance(value=p),
+                                           permeance=pv.Permeance(value=p).convert(units, comp),
                                            activation_energy=(ea if (stated or n == 1) else None)))
     rng.shuffle(exps)
     return pv.Membrane(name="verif_membrane", ideal_experiments=pv.IdealExperiments(experiments=exps))
@@ -64,7 +65,7 @@ def make_curve_set(rng, mix, n_curves=None, n_points=None, ctype="weight", t_cen
 def make_program(rng, T0, horizon):
     """A temperature programme that stays within 273..400 K over [0, horizon] hours."""
     typ = rng.choice(["polynomial", "exponential", "logarithmic"])
-    dT = rng.uniform(-25.0, 25.0)
+    dT = rng.uniform(-25.0, 25.0) if rng.random() < 0.6 else rng.choice([-1, 1]) * gen.logu(rng, 1e-3, 1.0)
     h = max(horizon, 1e-9)
     if typ == "polynomial":
         co = [T0, dT / h] if rng.random() < 0.5 else [T0, 0.5 * dT / h, 0.5 * dT / h ** 2]
@@ -89,7 +90,10 @@ def scenario(rng, kind=None, mode=None, removal=None, builtin_p=0.6, prog_p=0.4)
           "x0": rng.uniform(0.05, 0.95), "basis": rng.choice(["weight", "weight", "molar"]),
           "Tperm": None, "pperm": None, "prog": None, "prec": rng.choice([5e-5, 1e-6, 1e-4]),
           "membrane": make_membrane(rng, mix), "curves": None, "P0": None,
-          "removal": removal if removal is not None else gen.logu(rng, 1e-4, 0.04)}
+          "removal": removal if removal is not None else (gen.logu(rng, 1e-4, 0.04) if rng.random() < 0.7 else gen.logu(rng, 1e-8, 1e-4))}
+    if rng.random() < 0.3:
+        # feed temperature exactly at one of the membrane's experiments
+        sc["T0"] = T0 = float(rng.choice(sc["membrane"].ideal_experiments.experiments).temperature)
     if mode == "temp":
         sc["Tperm"] = rng.uniform(200.0, T0 - 25.0)
     elif mode == "press":
@@ -100,6 +104,7 @@ def scenario(rng, kind=None, mode=None, removal=None, builtin_p=0.6, prog_p=0.4)
                                       n_curves=None if single_off else rng.choice([1, 2, 3]))
         if rng.random() < 0.5:
             sc["P0"] = (gen.logu(rng, 1e-3, 0.2), gen.logu(rng, 1e-5, 1e-2), rng.choice([KG, KG, "SI", "GPU"]))
+        sc["warmup"] = rng.random() < 0.4
     if kind.endswith("noniso") and rng.random() < prog_p:
         sc["want_prog"] = True
     return sc
@@ -218,7 +223,9 @@ def state_lines(perv, sc, res, with_std=True):
     mix = sc["mix"]
     c1, c2 = mix.first_component, mix.second_component
     M1, M2 = float(c1.molecular_weight), float(c2.molecular_weight)
-    n = len(m.time)
+    # a model whose series have inconsistent lengths is reported up to the shortest one (End.lens tells the rest)
+    n = min(len(getattr(m, sname)) for sname in ("time", "feed_mass", "feed_temperature", "feed_compositions", "permeate_composition",
+                                                 "partial_fluxes", "permeances", "feed_evaporation_heat", "permeate_condensation_heat"))
     out = []
     prog = sc["prog"] if not sc["kind"].endswith("_iso") else None
     fits = m.permeance_fits
@@ -302,6 +309,12 @@ def trace_process(rng, sc, with_std=True, with_fits=False, with_ref=False):
     perv = prepare(rng, sc)
     if perv is None:
         return None, None
+    if sc.get("warmup") and sc["curves"] is not None:
+        # the same object and curve set are used by another model first (what the second call returns must not depend on it)
+        sw = dict(sc)
+        sw["kind"] = "nonideal_noniso" if sc["kind"] == "nonideal_iso" else "nonideal_iso"
+        sw["N"] = 2
+        run_process(perv, sw)
     res = run_process(perv, sc)
     tr = [start_line(sc, res)]
     if with_fits and sc["curves"] is not None and res["outcome"] == "return":
